@@ -26,7 +26,12 @@ RULE = (
     "uncached with a corrupt unprotected object planted under its name), a prior workspace (absent, "
     "plain files, or a real earlier checkout with a drawn link type) followed by drawn user edits "
     "(modify = unlink+create, delete, add, file->directory, directory->file at any depth including "
-    "the whole root of a tree target replaced by a plain cached/uncached file, empty directory), "
+    "the whole root of a tree target replaced by a plain cached/uncached file, empty directory; "
+    "files with more than one name: an added / modified user file, or any existing file, is given a "
+    "second hard link in the same directory, at the workspace root or outside the workspace, so that "
+    "cached and uncached files with st_nlink > 1 sit at paths the target drops, replaces or keeps; "
+    "edit in place = chmod u+w and rewrite the same inode, which writes through the hard link of an "
+    "earlier hardlink checkout and leaves the shared cache object damaged and writable), "
     "0-2 dangling symlinks at target / extra paths (also workspace symlinks whose cache object was "
     "dropped), an optional pre-step that hashes the workspace through the same State for a legacy "
     "md5-dos2unix store with LF/CRLF twin contents (one cached, one an uncached edit), an optional "
@@ -39,12 +44,16 @@ RULE = (
     "a partial cache of the OLD workspace tree (the final prior workspace is staged into the cache, "
     "then a drawn subset of its file objects is removed while its .dir object stays; more single-file "
     "targets over directory workspaces in that arm), "
-    "optionally target objects dropped from the cache, configured link types, relink on/off, state "
+    "optionally target objects dropped from the cache, configured link types (single types, "
+    "hardlink/symlink/reflink first with a copy fallback, and copy first with hardlink listed behind it), "
+    "relink on/off, state "
     "on/off and prompt None / declining with any falsy answer (False, None, 0, '', [], 0.0) / raising "
     "EOFError or KeyboardInterrupt (must propagate, nothing touched), plus a small accepting arm with "
     "truthy answers that only checks that bool True is taken as confirmation, force=False. Oracle: byte snapshots of the workspace before/after; every "
     "byte string that is no longer at its path must exist afterwards as an intact object "
-    "(name == hashlib md5 of the bytes) in the cache directory read with os.walk; if an unrecoverable "
+    "(name == hashlib md5 of the bytes) in the cache directory read with os.walk - whatever the link "
+    "count of the file, and a second name outside the workspace or elsewhere in it does not make the "
+    "removal of a workspace path acceptable; if an unrecoverable "
     "conflicting file was present the call must refuse (raise), and a PromptError's path must still "
     "hold its bytes. Links half: a rule-based history (trace = case) over State.save_link / relinking "
     "checkout with state (copy, hardlink, symlink), user modify (in place or unlink+create) / replace "
@@ -60,7 +69,18 @@ RULE = (
     "distinct = SHA-1 of the canonical case JSON."
 )
 ASSUMPTIONS = [
-    "user edits never write through a hard/symlink into the cache (modify = unlink + create)",
+    "user edits never write through a SYMLINK into the cache (modify = unlink + create; the in-place edit "
+    "skips symlinks): such a workspace entry holds no bytes of its own. Writing through a HARD link of an "
+    "earlier checkout is generated (in-place edit, always after chmod u+w as a non-root user would need): "
+    "the workspace name is a full name of the inode and holds the user's bytes, which are not stored in "
+    "the cache under their own md5 - the shared object now carries them under the OLD name, is not intact "
+    "(mode 0o644, never the trusted 0o444) and is dropped by the next check() - so the statement's 'content "
+    "not stored in the cache' applies and the file must be refused/left alone; when the damaged object is "
+    "one of the target's, the case counts as 'target object dropped' (CheckoutError / dangling-link "
+    "FileNotFoundError allowed, byte accounting unchanged)",
+    "a second hard link of a workspace file (inside or outside the workspace) is the user's business: it "
+    "neither makes the file's content recoverable from the cache nor exempts the workspace path from the "
+    "accounting; the twin itself, when inside the workspace, is an ordinary (extra) workspace file",
     "a plain file sitting at the root of a tree target: any exception counts as the refusal (the "
     "unchanged code raises a bare FileExistsError from makedirs); the byte accounting applies unchanged",
     "damaged cache objects carry any mode except exactly 0o444 (0o644, 0o600, 0o400, 0o440, 0o500, 0o555, "
@@ -107,7 +127,7 @@ def plant_damaged(p, data, how, mode_idx):
 
 
 LINK_TYPES = [["copy"], ["hardlink"], ["symlink"], ["reflink", "copy"], ["hardlink", "copy"],
-              ["symlink", "copy"]]
+              ["symlink", "copy"], ["copy", "hardlink"]]
 T0_NS = 1_600_000_000_000_000_000  # harness clock origin (no wall clock)
 
 
@@ -129,6 +149,10 @@ def _edit():
     i = st.integers(0, 11)
     c = st.integers(0, 7)
     kids = st.dictionaries(gen.names(), c, min_size=1, max_size=2)
+    # where the user's second hard link (another name of the same inode) lives: in the same directory,
+    # at the workspace root, or outside the workspace
+    twin = st.fixed_dictionaries({"where": st.sampled_from(["in", "in", "root", "out", "out"]),
+                                  "name": gen.names()})
     return st.one_of(
         st.fixed_dictionaries({"op": st.just("modify"), "i": i, "c": c}),
         st.fixed_dictionaries({"op": st.just("modify"), "i": i, "c": c}),
@@ -138,6 +162,12 @@ def _edit():
         st.fixed_dictionaries({"op": st.just("f2d"), "i": i, "kids": kids}),
         st.fixed_dictionaries({"op": st.just("d2f"), "d": i, "c": c}),
         st.fixed_dictionaries({"op": st.just("mkdir"), "d": i, "name": gen.names()}),
+        # the user's own file kept under two names (hard links) / an existing file given a second name
+        st.fixed_dictionaries({"op": st.just("add"), "d": i, "name": gen.names(), "c": c, "twin": twin}),
+        st.fixed_dictionaries({"op": st.just("modify"), "i": i, "c": c, "twin": twin}),
+        st.fixed_dictionaries({"op": st.just("twin"), "i": i, "twin": twin}),
+        # edited in place (chmod u+w, same inode): writes through a hard link of an earlier checkout
+        st.fixed_dictionaries({"op": st.just("inplace"), "i": i, "c": c}),
     )
 
 
@@ -383,8 +413,48 @@ def _force_unlink(p):
         os.unlink(p)
 
 
-def apply_edits(ws, edits, palette, clock, labels):
-    """User edits on a workspace directory. Never writes through a link (unlink first)."""
+def make_twin(p, spec, ws, outside, labels):
+    """The user gives the file at `p` a second name (hard link) in the same directory, at the
+    workspace root or outside the workspace. Content, inode and mtime of `p` stay what they are."""
+    if os.path.islink(p) or not os.path.isfile(p):
+        return
+    where = spec.get("where", "out")
+    if where == "in":
+        q = os.path.join(os.path.dirname(p), spec["name"])
+    elif where == "root" and os.path.isdir(ws) and not os.path.islink(ws):
+        q = os.path.join(ws, spec["name"])
+    else:
+        where = "out"
+        q = None
+    if q is None or os.path.lexists(q):
+        where = "out"
+        os.makedirs(outside, exist_ok=True)
+        q = os.path.join(outside, f"{len(os.listdir(outside))}-{spec['name']}")
+    os.link(p, q)
+    labels.add("edit:second-hard-link:" + {"in": "same-dir", "root": "workspace-root", "out": "outside"}[where])
+
+
+def edit_in_place(p, data, clock, labels):
+    """chmod u+w and rewrite the same inode (what an editor that saves in place does). When the file
+    is a hard link of an earlier checkout the cache object changes with it (and becomes writable)."""
+    if os.path.islink(p) or not os.path.isfile(p):
+        return False       # (a symlink into the cache holds no bytes of its own: never written through)
+    through = os.stat(p).st_nlink > 1
+    os.chmod(p, 0o644)
+    with open(p, "r+b") as f:
+        f.truncate(0)
+        f.write(data)
+    clock.stamp(p)
+    labels.add("edit:in-place")
+    if through:
+        labels.add("edit:in-place-through-hard-link")
+    return True
+
+
+def apply_edits(ws, edits, palette, clock, labels, outside=None):
+    """User edits on a workspace directory. Never writes through a symlink (unlink first); writes
+    through a hard link only with the explicit in-place edit."""
+    outside = outside or os.path.join(os.path.dirname(ws), "outside")
 
     def content(c):
         return gen.content_bytes(palette[c % len(palette)][1])
@@ -403,8 +473,16 @@ def apply_edits(ws, edits, palette, clock, labels):
         dlist = sorted(dirs)
         op = e["op"]
         if op == "modify" and flist:
-            put(os.path.join(ws, *flist[e["i"] % len(flist)].split("/")), content(e["c"]))
+            p = os.path.join(ws, *flist[e["i"] % len(flist)].split("/"))
+            put(p, content(e["c"]))
             labels.add("edit:modify")
+            if e.get("twin"):
+                make_twin(p, e["twin"], ws, outside, labels)
+        elif op == "twin" and flist:
+            make_twin(os.path.join(ws, *flist[e["i"] % len(flist)].split("/")), e["twin"], ws, outside, labels)
+        elif op == "inplace" and flist:
+            edit_in_place(os.path.join(ws, *flist[e["i"] % len(flist)].split("/")), content(e["c"]),
+                          clock, labels)
         elif op == "delete" and flist:
             os.unlink(os.path.join(ws, *flist[e["i"] % len(flist)].split("/")))
             labels.add("edit:delete")
@@ -416,6 +494,8 @@ def apply_edits(ws, edits, palette, clock, labels):
             if op == "add":
                 put(p, content(e["c"]))
                 labels.add("edit:add")
+                if e.get("twin"):
+                    make_twin(p, e["twin"], ws, outside, labels)
             else:
                 os.mkdir(p)
                 labels.add("edit:mkdir")
@@ -512,6 +592,7 @@ def run_checkout_case(case, ctx):  # noqa: C901, PLR0912, PLR0915
             # prior workspace
             ws = os.path.join(d, "ws")
             clock = Clock()
+            outside = os.path.join(d, "outside")   # the user's files outside the workspace
             if case["prior"] == "write":
                 if case["target_kind"] == "tree":
                     gen.materialise(case["target"], ws)
@@ -528,26 +609,37 @@ def run_checkout_case(case, ctx):  # noqa: C901, PLR0912, PLR0915
                     # single-file target: the edits act on the file itself (root of the workspace)
                     e = case["edits"][0]
                     c = gen.content_bytes(palette[e.get("c", 0) % len(palette)][1])
-                    if os.path.lexists(ws):
+                    out_twin = {"where": "out", "name": (e.get("twin") or {}).get("name", "twin")}
+                    if e["op"] in ("twin", "inplace"):
+                        # the file itself gets a second name outside / is rewritten in place
+                        if e["op"] == "twin":
+                            make_twin(ws, out_twin, ws, outside, labels)
+                        else:
+                            edit_in_place(ws, c, clock, labels)
+                    elif os.path.lexists(ws):
                         os.unlink(ws)
-                    if e["op"] in ("modify", "add", "d2f"):
+                    if e["op"] in ("twin", "inplace"):
+                        pass
+                    elif e["op"] in ("modify", "add", "d2f"):
                         gen.write_file(ws, c)
                         clock.stamp(ws)
                         labels.add("edit:modify")
+                        if e.get("twin"):
+                            make_twin(ws, out_twin, ws, outside, labels)
                     elif e["op"] in ("f2d", "mkdir"):
                         os.mkdir(ws)
                         kids = [{"op": "add", "d": 0, "name": n, "c": kc}
                                 for n, kc in sorted((e.get("kids") or {}).items())] if cot_field(case) else []
                         apply_edits(ws, kids + [dict(x) for x in case["edits"][1:]] or
                                     [{"op": "add", "d": 0, "name": "x", "c": e.get("i", 0)}],
-                                    palette, clock, labels)
+                                    palette, clock, labels, outside)
                         labels.add("edit:file->dir")
                     else:
                         labels.add("edit:delete")
                 else:
                     if not os.path.lexists(ws):
                         os.mkdir(ws)
-                    apply_edits(ws, case["edits"], palette, clock, labels)
+                    apply_edits(ws, case["edits"], palette, clock, labels, outside)
 
             root_file = case.get("root_file") if case["target_kind"] == "tree" else None
             if root_file is not None:
@@ -698,6 +790,21 @@ def run_checkout_case(case, ctx):  # noqa: C901, PLR0912, PLR0915
                      if not recoverable(before[rel], intact_before)}
             if root_file is not None:
                 labels.add("root-file:" + ("unrecoverable" if unrec else "recoverable"))
+            # an in-place edit through a hard link of the earlier checkout damaged the shared object
+            if "edit:in-place-through-hard-link" in labels and any(
+                    md5(b) not in intact_before for b in tflat.values()):
+                labels.add("target-object-dropped")
+                labels.add("target-object-damaged-by-in-place-edit")
+            # workspace files that have more than one name (hard links): a link count says nothing
+            # about where the other name is - the cache is asked by content, as for any other file
+            for rel in sorted(before):
+                p = os.path.join(ws, *rel.split("/")) if rel else ws
+                if not os.path.islink(p) and os.path.isfile(p) and os.stat(p).st_nlink > 1:
+                    what = ("unrecoverable-" + unrec[rel] if rel in unrec else
+                            "recoverable-conflict" if rel in conflicts else "same-as-target")
+                    labels.add("nlink>1:" + what)
+                    if rel in unrec and "hardlink" in case["types"]:
+                        labels.add("nlink>1:unrecoverable+hardlink-cache-type")
             corrupt_names = {md5(gen.content_bytes(c)) for role, c in palette if role == "corrupt"}
 
             prompts = []
@@ -853,7 +960,7 @@ def run(ctx):
     total = ctx.budget_s
     if total:
         ctx.budget_s = total * 0.5
-    ok = ctx.run_given(cases(), run_case, ctx.n(quick=130, thorough=3500))
+    ok = ctx.run_given(cases(), run_case, ctx.n(quick=180, thorough=4500))
     ctx.budget_s = total
     if ok and ctx.failure is None:
         run_trace_machine(ctx, LinksMachine, ctx.n(quick=60, thorough=1800),
